@@ -254,11 +254,93 @@ def run(rep, tier):
                             "do not arrive as the backend returned them: %s" % [(o.get("status"), o.get("headers")) for o in outs][:2],
                             rep.save_cex("witness_response", outs), confirmed=True)
         rep.obligations[-1]["result"] = res
+    t1 = time.time()
+    try:
+        dev = fill_outcomes(rep, model)
+    except Exception as e:      # noqa: BLE001
+        dev = None
+        rep.fail_inconclusive("filled-output witnesses: %r" % (e,))
+    if dev is not None:
+        if _fill_cache.get("checked", 0) < 100:
+            rep.fail_inconclusive("filled-output witnesses: only %d header members could be checked" % _fill_cache.get("checked", 0))
+        elif dev:
+            results = set()
+            for op0 in sorted(dev):
+                m0 = dev[op0][0]
+                results.add(rep.violation("witness:header:%s" % op0, "real build: the backend's %s output has member %s = %r but the response carries %s: %r "
+                                          "(%d header-bound members of this operation deviate)" % (op0, m0[0], m0[2], m0[1], m0[3], len(dev[op0])),
+                                          rep.save_cex("fill_witness_" + op0, dev[op0]), confirmed=True))
+            rep.obligation("witnesses: filled outputs of %d operations, %d header-bound members on the real build" % (_fill_cache["ops"], _fill_cache["checked"]),
+                           "replayer(not solver-decided)", "violated" if "violated" in results else "known", time.time() - t1, queries=_fill_cache["checked"])
+        else:
+            rep.obligation("witnesses: %d operations return an output with every simple member set; each of the %d header-bound members arrives under the "
+                           "model's header name with the model's text (strings verbatim, timestamps in the member's format, integers, booleans)" % (
+                               _fill_cache["ops"], _fill_cache["checked"]), "replayer(not solver-decided)", "holds", time.time() - t1,
+                           queries=_fill_cache["checked"])
     for d in prof.CATALOGUE_DOC:
         rep.assume("catalogue: " + d)
     kspec.run_spec(rep, "C03", tier, budget_s=300)
     rep.out("decoding by an actual aws-sdk client (the oracle is the model); streamed body bytes (identity move of StreamingBlob, "
             "checked structurally); value-level XML (C13) and timestamp text (C14)")
+
+
+TS_TEXT = {"http-date": "Tue, 09 Jan 2018 20:51:21 GMT", "date-time": "2018-01-09T20:51:21Z", "epoch-seconds": "1515531081"}
+_fill_cache = {}
+
+
+def fill_outcomes(rep, model):
+    """real build: every operation's backend returns an output whose simple members are all set to recognisable values; each
+    header-bound member of the API model must arrive under the model's header name with the value's model text.
+    -> {op: [(member, header, expected, got)] deviations}; cached per run"""
+    if "dev" in _fill_cache:
+        return _fill_cache["dev"]
+    import subprocess
+    import json as _json
+    b = replay.binary()
+    filled = dict((m, dict(fs)) for m, fs in _json.loads(subprocess.run([b, "filled"], stdout=subprocess.PIPE, text=True, timeout=60).stdout))
+    ops, scs = [], []
+    for op in sorted(model.ops):
+        members = [(n, i) for n, i in model.members(model.output_shape(op)) if i["loc"] == "header"]
+        if not members or snake(op) not in filled:
+            continue
+        try:
+            rq = model_request(op, BODIES.get(op))
+        except Exception:
+            continue
+        ops.append((op, members))
+        scs.append({"config": {}, "request": rq, "backend": {"output": {"fill": True}}})
+    outs = replay.run_scenarios(scs)
+    dev, checked = {}, 0
+    for (op, members), o in zip(ops, outs):
+        if not any(e["ev"].startswith("s3.") for e in o.get("events", [])):
+            continue                      # the model request did not reach the backend (covered by C01/C02)
+        hs = {}
+        for k, v in o.get("headers", []):
+            hs.setdefault(k.lower(), []).append(v)
+        fs = filled[snake(op)]
+        for name, i in members:
+            f = [x for x in fs if norm(x) == norm(snake(name))]
+            if not f:
+                continue
+            kind = fs[f[0]]
+            if kind == "timestamp":
+                want = TS_TEXT[i["timestamp_format"] or "http-date"]
+            elif kind == "string":
+                want = "F-" + f[0]
+            else:
+                want = {"int": "7", "bool": "true"}[kind]
+            got = hs.get(i["wire"].lower())
+            checked += 1
+            if kind == "timestamp" and (i["timestamp_format"] or "http-date") == "date-time" and got and len(got) == 1 and \
+                    re.fullmatch(r"2018-01-09T20:51:21(\.0+)?Z", got[0]):
+                continue                  # RFC 3339 date-time with or without fractional seconds
+            if got != [want]:
+                dev.setdefault(op, []).append((name, i["wire"], want, got))
+    rep.traces_validated += len(scs)
+    _fill_cache["dev"] = dev
+    _fill_cache["checked"] = checked
+    _fill_cache["ops"] = len(ops)
+    return dev
 
 
 def model_request(op, body=None):
@@ -276,9 +358,13 @@ BODIES = {"PutBucketPolicy": "{}", "CompleteMultipartUpload": "<CompleteMultipar
 
 
 def confirm_ser(rep, op, key, what):
-    """status counterexamples: send the model's request, compare the success status with the model's code"""
+    """status counterexamples: send the model's request, compare the success status with the model's code;
+    header counterexamples: the filled-output witness of that operation deviates from the model on the real build"""
     if not key.startswith("status"):
-        return False
+        try:
+            return bool(fill_outcomes(rep, Model()).get(op))
+        except Exception:
+            return False
     import C02replay
     m = C02replay.model()
     out = replay.run_scenarios([{"config": {}, "request": model_request(op, BODIES.get(op))}])[0]
